@@ -397,7 +397,7 @@ def build_ops(D):
 
     def mmdout_shapes(rng):
         s0 = (rng.randint(1, 5), rng.randint(1, 5))
-        k = rng.choice([1, 2, 3, 4])
+        k = rng.choice([1, 2, 3, 4, 5])
         v = rng.choice([(1, 0), (0, 1), (2, 0)])
         return [s0, (k, s0[1]), (s0[0], k)], (complex(*v),), {}
     ops.append(Op("matmul_dag[out]", 3, lambda a, b, o, v: o + v * (a @ b.conj().T),
@@ -1599,7 +1599,7 @@ def run(ctx):
         run_corpus(ctx, D)
         check_conversions(ctx, D, random.Random(ctx.seed * 31 + 5), 40 if ctx.quick else 400)
     phase(ctx, "witnesses", p3)
-    nor = 600 if ctx.quick else 6600
+    nor = 600 if ctx.quick else 4500
     ctx.log("oracle: %d operation draws" % nor)
     # several children so that a crash loses one slice only
     nsl = 4 if ctx.quick else 12
